@@ -107,6 +107,8 @@ BASES = [
     {"authors": [PK["0"], PK["7"], PK["f"]], "kinds": [1, 2], "#e": ["a"]},
     {"#e": ["A"]}, {"#e": [META]}, {"#e": ["\u00e9\u4e2d"]}, {"#e": ["a"], "#p": [PK["0"]]}, {"#e": ["a", "b"], "#p": [PK["0"]]}, {"#e": ["a", "A"]},
     {"ids": [ID0], "authors": [PK["0"]]}, {"ids": [IDF], "authors": [PK["0"]]},
+    # empty lists match nothing (NIP-01), whatever stands next to them
+    {"authors": []}, {"kinds": []}, {"authors": [], "ids": [ID0]}, {"kinds": [], "authors": [PK["0"]]}, {"ids": [], "kinds": [1]},
     {"ids": [ID0]}, {"ids": [IDF]}, {"ids": [ID0, IDF]}, {"ids": [ID0], "kinds": [1]}, {"ids": [ID0], "kinds": [2]},
 ]
 LIMITS = [None, 0, 1, 2, 5]          # None: no "limit" key; 5: above the configured cap of 2
@@ -133,7 +135,7 @@ F = filters()
 
 
 def oracle_fields(f, ev, may=True):
-    """NIP-01 matching of the non-time fields.  may=True: the event MAY be returned (author or NIP-26 delegator, as C01 allows);
+    """NIP-01 matching of the non-time fields (a condition with an empty list is satisfied by no event).  may=True: the event MAY be returned (author or NIP-26 delegator, as C01 allows);
     may=False: it MUST be returned (author only -- delegation support is optional)"""
     if "kinds" in f and ev.kind not in f["kinds"]:
         return False
